@@ -568,3 +568,69 @@ Fixpoint feed (g : cfg) (n i : nat) (s : state) (taken : nat) : nat :=
 (* the reader goroutine holds one more datagram while it is blocked on the full channel *)
 Definition back_model (g : cfg) (sent : nat) : nat :=
   let k := feed g sent 0 init 0 in if k <? sent then S k else k.
+
+(* ---- replay of a sequential scenario ----
+   For scenarios in which the harness waits for the visible effect of each action before the
+   next one (so the server loop is idle in between), the recorded log determines the schedule:
+   every observed event is turned into the corresponding step, the loop runs until it has
+   nothing to do, and the event the model emits must be the observed one. *)
+Fixpoint close_all (g : cfg) (fuel : nat) (s : state) (c : cid) : state :=
+  match fuel with
+  | O => s
+  | S f => match exec g s (CloseStep c) with Some s' => close_all g f s' c | None => s end
+  end.
+
+Definition ev_matches (obs : ev) (s : state) : bool :=
+  match obs, List.last (trace s) EStop with
+  | ERead c p f o l, ERead c' p' f' o' l' =>
+      Nat.eqb c c' && pkt_eqb p p' && Bool.eqb f f' && N.eqb o o' && N.eqb l l'
+  | EWrite c w a, EWrite c' w' a' => Nat.eqb c c' && Nat.eqb w w' && Nat.eqb a a'
+  | EEof c, EEof c' => Nat.eqb c c'
+  | EDeadline c, EDeadline c' => Nat.eqb c c'
+  | ERet c, ERet c' => Nat.eqb c c'
+  | _, _ => false
+  end.
+
+Fixpoint replay (g : cfg) (s : state) (nnew : nat) (tr : list ev) : bool :=
+  match tr with
+  | [] => Nat.eqb nnew (length (conns s)) && negb (panicked s)
+  | e :: r =>
+      match e with
+      | EArr p =>
+          match exec g s (SockRecv p) with
+          | Some s' => replay g (loop_quiesce g 6 s') nnew r
+          | None => false
+          end
+      | ENew c a =>
+          match get s c with
+          | Some k => Nat.eqb c nnew && Nat.eqb (caddr k) a && replay g s (S nnew) r
+          | None => false
+          end
+      | ERead c p _ _ len =>
+          match exec g s (ConnRead c len) with
+          | Some s' => ev_matches e s' && replay g (loop_quiesce g 6 s') nnew r
+          | None => false
+          end
+      | EWrite c w _ =>
+          match exec g s (ConnWrite c w) with
+          | Some s' => ev_matches e s' && replay g s' nnew r
+          | None => false
+          end
+      | EEof c =>
+          match (match exec g s (ConnEof c) with Some s' => Some s' | None => exec g s (ConnIdle c) end) with
+          | Some s' => ev_matches e s' && replay g (loop_quiesce g 6 s') nnew r
+          | None => false
+          end
+      | EDeadline c =>
+          match exec g s (ConnDeadline c) with
+          | Some s' => replay g s' nnew r
+          | None => false
+          end
+      | ERet c =>
+          match exec g s (HandlerReturn c) with
+          | Some s' => replay g (loop_quiesce g 6 (close_all g 8 s' c)) nnew r
+          | None => false
+          end
+      | _ => false
+      end
+  end.
